@@ -10,10 +10,10 @@ from sa.fold import Folder, Regex
 from sa.regex import Compiled
 from sa.selftest import Edit, Variant
 
-from sa.texts import T as _T
+from sa.texts import T as _TX
 
-EXPLANATION = _T["C17"]["explanation"] + " Not decided: " + _T["C17"]["not_decided"] + "."
-ASSUMPTIONS = _T["C17"]["assumptions"]
+EXPLANATION = _TX["C17"]["explanation"] + " Not decided: " + _TX["C17"]["not_decided"] + "."
+ASSUMPTIONS = _TX["C17"]["assumptions"]
 P = "C17"
 REF_CALLS = ("xpath", "xpath_one", "resolve_url", "el_by_id.get", "getElementById")
 FORBIDDEN_IO = {"urlopen", "urlretrieve", "system", "popen", "Popen", "check_output", "check_call", "socket", "eval", "exec", "compile",
